@@ -176,7 +176,11 @@ class SymInt(_Num):
     def __mod__(a, b):
         if isinstance(b, int) and b > 0:
             return SymInt(a.t % b)
-        raise Unsupported('modulo by a non-positive or symbolic divisor')
+        if isinstance(b, SymInt):
+            # a % b for 0 <= a < 2b, b > 0 (side obligation): a if a < b else a - b
+            core.side('modulo: 0 <= dividend < 2*divisor and divisor > 0', z3.And(b.t > 0, a.t >= 0, a.t < 2 * b.t))
+            return SymInt(z3.If(a.t < b.t, a.t, a.t - b.t))
+        raise Unsupported('modulo by a non-positive divisor')
 
     def __index__(self):
         cv = concrete(z3.ToReal(self.t))
